@@ -94,7 +94,7 @@ func (g *Circle) Contains(obj Object) bool {
 	case *SimplePoint:
 		return g.containsPoint(other.Center())
 	case *Circle:
-		return other.Distance(g) < (other.meters + g.meters)
+		return other.Distance(g)+other.meters <= g.meters
 	case Collection:
 		for _, p := range other.Children() {
 			if !g.Contains(p) {
